@@ -283,6 +283,25 @@ func matchLayout(fr *Frame, cj Conj, segs []*Write, widths []Aff, exp []expSeg, 
 				return false, "missing segment for " + e.what
 			}
 			w := segs[i]
+			if w.kind == wByte && e.src.ln.isConst() && e.src.ln.c >= 1 && e.src.ln.c <= 16 && i+int(e.src.ln.c) <= len(segs) {
+				// a short fixed-size field written byte by byte: byte j of the field at offset j
+				k := int(e.src.ln.c)
+				okBytes := true
+				for j := 0; j < k; j++ {
+					wj := segs[i+j]
+					v, isI := intVal(wj)
+					if wj.kind != wByte || !isI || !cj.entails(atomEQ(v, fr.frameBytes(*e.src, affConst(int64(j)), 1, true))) {
+						okBytes = false
+					}
+				}
+				if okBytes {
+					i += k
+					continue
+				}
+				if v0, ok := intVal(w); ok {
+					return false, fmt.Sprintf("%s: byte at offset %s holds %s, want byte 0 of the field (%s) (%s)", e.what, w.off.String(), v0.String(), fr.frameBytes(*e.src, affConst(0), 1, true).String(), w.pos)
+				}
+			}
 			if w.kind != wCopy {
 				return false, fmt.Sprintf("%s: expected a contiguous copy of the field at offset %s, found a different write (%s)", e.what, w.off.String(), w.pos)
 			}
